@@ -29,11 +29,32 @@ class StringValidator:
         validation_issues = []
         number_open_parentheses = hed_string.count('(')
         number_closed_parentheses = hed_string.count(')')
-        if number_open_parentheses != number_closed_parentheses:
+        if number_open_parentheses != number_closed_parentheses or \
+                StringValidator._parentheses_out_of_order(hed_string):
             validation_issues += ErrorHandler.format_error(ValidationErrors.PARENTHESES_MISMATCH,
                                                            opening_parentheses_count=number_open_parentheses,
                                                            closing_parentheses_count=number_closed_parentheses)
         return validation_issues
+
+    @staticmethod
+    def _parentheses_out_of_order(hed_string):
+        """ Report whether some closing parenthesis has no opening parenthesis before it.
+
+        Parameters:
+            hed_string (str): A hed string.
+
+        Returns:
+            bool: True if the parentheses are unbalanced even though their counts may agree, e.g. 'A),(B'.
+        """
+        depth = 0
+        for character in hed_string:
+            if character == StringValidator.OPENING_GROUP_CHARACTER:
+                depth += 1
+            elif character == StringValidator.CLOSING_GROUP_CHARACTER:
+                depth -= 1
+                if depth < 0:
+                    return True
+        return False
 
     def check_delimiter_issues_in_hed_string(self, hed_string):
         """ Report missing commas or commas in value tags.
